@@ -62,9 +62,21 @@ def _zone_case(args):
     from pyoda_time._ambiguous_time_error import AmbiguousTimeError
     from pyoda_time._skipped_time_error import SkippedTimeError
 
-    src = source(path)
-    zone = src.for_id(zid)
+    import signal
+
+    from checks._watchdog import Hang
+
+    def _on_alarm(signum, frame):
+        raise Hang("the walk of this zone did not finish in time (the real code loops?)")
+
+    signal.signal(signal.SIGALRM, _on_alarm)
+    signal.alarm(1800 if not head else 180)
     problems: list[tuple[str, str]] = []
+    try:
+        src = source(path)
+        zone = src.for_id(zid)
+    except Hang as e:
+        return (zid, 0, 0, 0, [("walk.hang", f"{os.path.basename(path)}:{zid}: {e}")])
     n = nontrivial = mapped = 0
     eps = Duration.epsilon
     prev = None
@@ -201,10 +213,12 @@ def _zone_case(args):
                         if got != best:
                             bad("C05.start-of-day", f"at_start_of_day({date}) is not the earliest instant carrying that date (off by {(got - best) // 1_000_000_000}s)")
             prev = iv
-    except Exception as e:  # noqa: BLE001
+    except (Exception, Hang) as e:  # noqa: BLE001
         import traceback
 
-        bad("walk.exception", f"{type(e).__name__}: {e} @ {traceback.extract_tb(e.__traceback__)[-1].name}")
+        bad("walk.hang" if isinstance(e, Hang) else "walk.exception", f"{type(e).__name__}: {e} @ {traceback.extract_tb(e.__traceback__)[-1].name}")
+    finally:
+        signal.alarm(0)
     _ = Instant, Offset
     return (zid, n, nontrivial, mapped, problems)
 
